@@ -1,3 +1,3 @@
-import Driver.Loop
-/-! Driver for group `filter`: replace `[]` by this group's handlers. -/
-def main : IO Unit := TF.Driver.run []
+import Driver.Filter
+/-! Driver for group `filter`. -/
+def main : IO Unit := TF.Driver.run [TF.Driver.handleFilter]
